@@ -94,4 +94,11 @@ def run(tier, seed):
 
 def replay(path):
     d = vc.fresh_dir(PID + "_replay")
+    if path.endswith(".json"):
+        import json
+        r = json.load(open(path))
+        rep = vc.run_seqx(build_sterm(d), r["args"])
+        hit = [v for v in rep["violations"] if v["signature"] == r["signature"]]
+        print(json.dumps(hit[:1] or "not reproduced", indent=1))
+        return 1 if hit else 0
     return vc.rsched_replay(hc.build(d), path)
